@@ -1,9 +1,11 @@
 """Property -> units table and notes shared by all checks."""
 
 PROPS = {
+    "C07": {"units": ["U6a"], "min_obligations": 6,
+            "note": "directive prologues survive: insertion index == directive-prologue length; injected let / file prologue spliced right after it"},
     "C15": {"units": ["U1"], "min_obligations": 10,
             "note": "metrics == instrumentation emitted: per-call contracts on update_status/Telemetry (U1) and on every update_status call site of visit_mut_expr (U6)"},
-    "C12": {"units": ["U1"], "min_obligations": 5,
+    "C12": {"units": ["U1", "U6a"], "min_obligations": 5,
             "note": "status never disagrees with content"},
 }
 
